@@ -49,6 +49,20 @@ CHECKS = {
              "free-text literals stop only at their own delimiter, the "
              "backslash arm keeps escaped delimiters in the payload.",
         ref="DESIGN.md §3 C03"),
+    "C04": dict(
+        technique="guard-dominance and post-dominance rules over the lexer "
+                  "branches and the parser's branch collector",
+        category="other",
+        text="Necessary structural conditions for all programs: every access "
+             "to the lexer's input queue is dominated by a non-emptiness "
+             "test; delimiter-terminated literals append their token "
+             "unconditionally, stop before the delimiter and consume it only "
+             "if present; _get_branches loops while tokens remain, never "
+             "raises, has one unconditional return and does not store the "
+             "outermost closer; parse() never reads the closing state and no "
+             "rejection depends on it. Does not decide the equality of the "
+             "two parses itself.",
+        ref="DESIGN.md §3 C04"),
     "C06": dict(
         technique="class-exhaustive transducer composition: the four stages "
                   "(quotify escape table, lexer back-quote branch, "
